@@ -42,72 +42,96 @@ func (r *run) passHistory(stream string, expiry int64, ops []PassOp) {
 // passHistoryFrom: same, starting from a stored record written directly (the
 // first "issued" code is then the record's code).
 func (r *run) passHistoryFrom(stream string, expiry int64, start *PassState, ops []PassOp) {
-	const name = "user"
 	b := roles.New(pisces.NewMemTables())
 	b.SetPassCodeExpiry(time.Duration(expiry))
+	pr := r.passRoleNew(b, stream, "user", expiry, start)
+	for _, op := range ops {
+		r.passStep(b, pr, op, nil)
+	}
+	r.emit(pr.c)
+}
+
+// passRole is one role's history on a Roles object (which may hold several
+// roles and outlive any of them).
+type passRole struct {
+	name  string
+	codes []string // the codes issued to this role, in order
+	c     *Case
+}
+
+// passRoleNew creates the role on b and starts its history.
+func (r *run) passRoleNew(b *roles.Roles, stream, name string, expiry int64, start *PassState) *passRole {
 	if err := b.New(name, time.Unix(0, 0)); err != nil {
 		panic(err)
 	}
-	var codes []string
-	c := &Case{Stream: stream, Op: "pass", Expiry: z(expiry), Ops: ops, Start: start}
+	pr := &passRole{name: name, c: &Case{Stream: stream, Op: "pass", Expiry: z(expiry), Start: start}}
 	if start != nil {
 		v, _ := strconv.ParseInt(start.Valid, 10, 64)
 		e, _ := strconv.ParseInt(start.Expire, 10, 64)
-		codes = append(codes, "12345678")
-		if err := b.VerifSetPassCode(name, &roles.VerifPassCode{Has: start.Has, Code: codes[0], HasValid: start.HasValid,
+		pr.codes = append(pr.codes, "12345678")
+		if err := b.VerifSetPassCode(name, &roles.VerifPassCode{Has: start.Has, Code: pr.codes[0], HasValid: start.HasValid,
 			ValidNano: v, HasExpire: start.HasExp, ExpireNano: e, Consumed: start.Consumed, Tried: start.Tried}); err != nil {
 			panic(err)
 		}
 	}
-	c.Obs.Ok = true
-	for _, op := range ops {
-		t, _ := strconv.ParseInt(op.T, 10, 64)
-		var err error
-		crash := guard(func() {
-			switch op.Op {
-			case "new":
-				code, e := b.NewPassCode(name, time.Unix(0, t))
-				err = e
-				if e == nil {
-					codes = append(codes, code.Code)
-				}
-			case "try":
-				claim := ""
-				switch {
-				case op.Claim > 0 && op.Claim <= len(codes):
-					claim = codes[op.Claim-1]
-				case op.Claim != 0:
-					claim = fmt.Sprintf("wrong%d", op.Claim)
-				}
-				id := &identity.Identity{PublicKeys: []*identity.PublicKey{{ID: "id" + strconv.Itoa(op.ID)}}}
-				err = b.SetupWithCode(name, id, claim, time.Unix(0, t))
-			case "disable":
-				err = b.Disable(name)
-			case "enable":
-				err = b.Enable(name)
+	pr.c.Obs.Ok = true
+	return pr
+}
+
+// passStep runs one operation for the role and appends what was observed.
+// A try with Stale = n > 0 offers stale[n-1] (a code that was never issued to
+// this incarnation of the role: to the model and the oracle it is a wrong code).
+func (r *run) passStep(b *roles.Roles, pr *passRole, op PassOp, stale []string) int {
+	name, c := pr.name, pr.c
+	t, _ := strconv.ParseInt(op.T, 10, 64)
+	var err error
+	crash := guard(func() {
+		switch op.Op {
+		case "new":
+			code, e := b.NewPassCode(name, time.Unix(0, t))
+			err = e
+			if e == nil {
+				pr.codes = append(pr.codes, code.Code)
 			}
-		})
-		if crash != "" {
-			c.Obs.Crash = crash
-		}
-		res := PassRes{R: passErr(err)}
-		st, e := b.VerifPassCodeState(name)
-		if e != nil {
-			panic(e)
-		}
-		res.St = PassState{Has: st.Has, HasValid: st.HasValid, HasExp: st.HasExpire, Valid: z(st.ValidNano), Expire: z(st.ExpireNano), Consumed: st.Consumed,
-			Tried: st.Tried, Disabled: st.Disabled}
-		for i, cd := range codes {
-			if st.Has && cd == st.Code {
-				res.St.Code = i + 1
+		case "try":
+			claim := ""
+			switch {
+			case op.Stale > 0:
+				claim = stale[op.Stale-1]
+			case op.Claim > 0 && op.Claim <= len(pr.codes):
+				claim = pr.codes[op.Claim-1]
+			case op.Claim != 0:
+				claim = fmt.Sprintf("wrong%d", op.Claim)
 			}
+			id := &identity.Identity{PublicKeys: []*identity.PublicKey{{ID: "id" + strconv.Itoa(op.ID)}}}
+			err = b.SetupWithCode(name, id, claim, time.Unix(0, t))
+		case "disable":
+			err = b.Disable(name)
+		case "enable":
+			err = b.Enable(name)
 		}
-		if st.HasID {
-			res.St.ID, _ = strconv.Atoi(strings.TrimPrefix(st.IDTag, "id"))
-		}
-		c.Obs.Pass = append(c.Obs.Pass, res)
+	})
+	if crash != "" {
+		c.Obs.Crash = crash
 	}
-	r.emit(c)
+	res := PassRes{R: passErr(err)}
+	st, e := b.VerifPassCodeState(name)
+	if e != nil {
+		panic(e)
+	}
+	res.St = PassState{Has: st.Has, HasValid: st.HasValid, HasExp: st.HasExpire, Valid: z(st.ValidNano), Expire: z(st.ExpireNano), Consumed: st.Consumed,
+		Tried: st.Tried, Disabled: st.Disabled}
+	for i, cd := range pr.codes {
+		if st.Has && cd == st.Code {
+			res.St.Code = i + 1
+		}
+	}
+	if st.HasID {
+		res.St.ID, _ = strconv.Atoi(strings.TrimPrefix(st.IDTag, "id"))
+	}
+	c.Ops = append(c.Ops, op)
+	c.Obs.Pass = append(c.Obs.Pass, res)
+	return res.R
 }
 
 func (r *run) passcodes() {
